@@ -128,6 +128,12 @@ func grammatical(t *rapid.T) string {
 		if gen.Pick(t, 3, "hlead0") == 0 {
 			lead = "0"
 		}
+		if gen.Pick(t, 5, "hzeros") == 0 {
+			// more than 200000 characters, almost all of them leading zeros of the fraction: the
+			// value is 1E-2 or so
+			z := 200001 + rapid.IntRange(-2, 3).Draw(t, "hzn")
+			return "0." + strings.Repeat("0", z) + "1E" + fmt.Sprint(z-rapid.IntRange(0, 3).Draw(t, "hze"))
+		}
 		if il > 0 {
 			b.WriteString(lead + strings.Repeat("7", il-1))
 		}
